@@ -58,19 +58,31 @@ def replace_assign(cx):
     cx.note('trigger branch (functional assignments of draws) is excluded by the precondition; it is covered by the bounded C13 check')
 
 
-@contract(F, 'RecBuilder.get_recurrence', ['C03', 'C01'])
+@contract(F, 'RecBuilder.get_recurrence', ['C03', 'C01', 'C20'])
 def get_recurrence(cx):
     """right side = RED(fold of  r -> (NEC(a_i, r) ? RED(REP(r, a_i)) : r)  over the body assignments i = last, last-1, ..., 0)"""
     NEC = z3.Function('replace_is_necessary', REF, R, B); REP = z3.Function('replace_assign', R, REF, R); RED = z3.Function('reduce_powers', R, R)
     body = cx.seq('loop_body', DRef('Assignment')); mono = cx.real('monomial'); last = cx.int('last_assign_index')
     prog = cx.obj('Program', loop_body=body)
-    self = cx.obj('RecBuilder', program=prog, context=cx.ref('ctx0'))
+    ctx0 = cx.ref('ctx0')
+    self = cx.obj('RecBuilder', program=prog, context=ctx0)
     cx.param(self=self, monomial=mono)
-    cx.call('RecBuilderContext', lambda ex, st, r, a, kw: V('ref', ex.fresh(REF, 'ctx')))
+    FRESH = z3.Function('context_created_in_this_call', REF, B)
+    cx.axiom(z3.Not(FRESH(ctx0.t)))
+
+    def new_context(ex, st, r, a, kw):
+        c = ex.fresh(REF, 'ctx'); ex.axioms.append(FRESH(c)); return V('ref', c)
+    cx.call('RecBuilderContext', new_context)
     cx.attr('free_symbols', lambda ex, st, o: V('opaque'))
     cx.call('_get_last_assign_index', lambda ex, st, r, a, kw: last, trusted='_get_last_assign_index contract (above)')
     cx.call('_assign_replace_is_necessary', lambda ex, st, r, a, kw: VB(NEC(a[0].t, toreal(a[1]))), trusted='_assign_replace_is_necessary')
-    cx.call('_replace_assign', lambda ex, st, r, a, kw: VR(REP(toreal(a[0]), a[1].t)), trusted='_replace_assign contract (above)')
+
+    def replace_assign(ex, st, r, a, kw):
+        # the trigger / functional-assignment registrations belong to ONE monomial: the context in use was created in this call (C20: no leak
+        # from the monomials handled earlier by the same builder)
+        ex.need(st, FRESH(st.heap[self.t]['context'].t), 'context.fresh-for-this-monomial@0', 'ensures')
+        return VR(REP(toreal(a[0]), a[1].t))
+    cx.call('_replace_assign', replace_assign, trusted='_replace_assign contract (above)')
     cx.call('_reduce_powers', lambda ex, st, r, a, kw: VR(RED(toreal(a[0]))), trusted='_reduce_powers: value preserved on typed states (Finite.reduce_power contract)')
     cx.requires(last.t >= -1, last.t < z3.Length(body.t))
     CH = z3.RecFunction('chain', I, R, R); i = z3.Int('i'); r = z3.Real('r')
@@ -127,17 +139,27 @@ def worklist_closure(cx, goal_t):
     cx.ensures(post)
 
 
-@contract(F, 'RecBuilder.get_initial_value', ['C03', 'C01'])
+@contract(F, 'RecBuilder.get_initial_value', ['C03', 'C01', 'C20'])
 def get_initial_value(cx):
     """E(M) before the first iteration: the monomial is pushed backwards through the initial block (last assignment first), then every remaining
     program variable v of the monomial is replaced by its symbolic initial value v0"""
     NEC = z3.Function('replace_is_necessary', REF, R, B); REP = z3.Function('replace_assign', R, REF, R); V0 = z3.Function('to_initial_symbols', R, R)
     init = cx.seq('initial', DRef('Assignment')); mono = cx.real('monom')
     prog = cx.obj('Program', initial=init, symbols=V('opaque'))
-    cx.param(self=cx.obj('RecBuilder', program=prog, context=cx.ref('ctx0')), monom=mono)
-    cx.call('RecBuilderContext', lambda ex, st, r, a, kw: V('ref', ex.fresh(REF, 'ctx')))
+    ctx0 = cx.ref('ctx0'); me = cx.obj('RecBuilder', program=prog, context=ctx0)
+    cx.param(self=me, monom=mono)
+    FRESH = z3.Function('context_created_in_this_call', REF, B)
+    cx.axiom(z3.Not(FRESH(ctx0.t)))
+
+    def new_context(ex, st, r, a, kw):
+        c = ex.fresh(REF, 'ctx'); ex.axioms.append(FRESH(c)); return V('ref', c)
+    cx.call('RecBuilderContext', new_context)
     cx.call('_assign_replace_is_necessary', lambda ex, st, r, a, kw: VB(NEC(a[0].t, toreal(a[1]))), trusted='_assign_replace_is_necessary')
-    cx.call('_replace_assign', lambda ex, st, r, a, kw: VR(REP(toreal(a[0]), a[1].t)), trusted='_replace_assign contract (above)')
+
+    def replace_assign(ex, st, r, a, kw):
+        ex.need(st, FRESH(st.heap[me.t]['context'].t), 'context.fresh-for-this-monomial@0', 'ensures')
+        return VR(REP(toreal(a[0]), a[1].t))
+    cx.call('_replace_assign', replace_assign, trusted='_replace_assign contract (above)')
     frees = cx.seq('remaining_variables', DRef('Symbol'))
     cx.attr('free_symbols', lambda ex, st, o: V('fs', toreal(o)))
 
